@@ -74,6 +74,8 @@ def main(tier, seed):
         if i % 3 == 0:
             tooltier.add_special_methods(prog, rng, b)
             emit_rust.assign_abi_names(prog)
+        if i % 4 == 1:
+            tooltier.add_docs(prog, rng)
         if i % 2 == 0 and tooltier.profiles.support(b)["namespacing"]:
             # types spread over several namespaces with cyclic references between them: headers then forward-declare / include across namespaces
             tooltier.reference_graph_features(prog, rng, keyword_fields=False, renames=False, namespaces=True)
@@ -148,6 +150,21 @@ def main(tier, seed):
         for t_ in (extra, st, en):
             for m_ in t_.methods:
                 m_.owner = t_
+        if sup["namespacing"] and i % 2 == 0:
+            # an unrelated module that re-uses the *identifier* of an existing opaque, told apart by namespace and abi_rename
+            # (types are looked up by path, not by bare name: the original's files must not notice)
+            cands = [t_ for t_ in prog.types() if t_.kind == "opaque" and not t_.lifetimes]
+            if cands:
+                orig = rng.choice(cands)
+                dup = spec.Opaque(orig.name)
+                dup.methods.append(spec.Method("make", None, [("seed", ("prim", "u32"))], ("obox", orig.name, False)))
+                dup.methods.append(spec.Method("twin", ("ref", None), [("other", ("oref", orig.name, False, None, False))], ("prim", "u8")))
+                for m_ in dup.methods:
+                    m_.owner = dup
+                mdup = spec.Module("zzz_dup")
+                mdup.attrs = ['#[diplomat::attr(auto, namespace = "vfdup")]', '#[diplomat::abi_rename = "vfdup_{0}"]']
+                mdup.items = [dup]
+                p3.modules.append(mdup)
         emit_rust.assign_abi_names(p3)
         kind, snap, s, e = gen(p3, "insert")
         if kind == "ok":
